@@ -361,6 +361,16 @@ def check_flatten_flag(ctx):
     flags = [fl for fl in discover_flags(m, r, stack_tl) if not fl.guarded_setters and not fl.raising_getters]
     need(len(flags) == 1, "C08.7: flatten-mode flag not identified")
     setters = {x.qualname for x in flags[0].setters + flags[0].mixed}
+    # helpers (context managers of other modules, wrappers) that call a setter themselves
+    for _round in range(2):
+        for fn_ in m.all_functions(include_typeguard=False):
+            if fn_.qualname in setters or fn_ is f:
+                continue
+            for c in m.calls_in(fn_):
+                t = m.resolve_call(fn_, c)
+                if t.kind == "func" and t.target.qualname in setters and fn_.module.short != "_storage":
+                    if any(isinstance(x, (ast.Yield, ast.YieldFrom)) for x in walk_scope(fn_.node)) or fn_.name == "__enter__":
+                        setters.add(fn_.qualname)
 
     cm_classes = {c.qualname for c in flags[0].cms}
 
@@ -369,7 +379,8 @@ def check_flatten_flag(ctx):
             t = m.resolve_call(f, c)
             if t.kind == "func" and t.target.qualname in setters:
                 return True
-            if n.kind == "with_enter" and t.kind == "class" and t.target.qualname in cm_classes:
+            if n.kind == "with_enter" and t.kind == "class" and (t.target.qualname in cm_classes or (
+                    "__enter__" in t.target.methods and t.target.methods["__enter__"].qualname in setters)):
                 return True  # a class-based context manager whose pairing is judged by the flag typestate
         return False
 
